@@ -16,6 +16,7 @@ func init() {
 	Runners["aggregation"] = runAggregation
 	Runners["aggregation-large"] = runAggregationLarge
 	Runners["aggregation-origins"] = runAggregationOrigins
+	Runners["aggregation-scalars"] = runAggregationScalars
 }
 
 type aggrCase struct {
@@ -530,6 +531,109 @@ func runAggregationOrigins(raw json.RawMessage, seed int64) (res Result) {
 				add("RemovalInverse", fmt.Sprintf("RemoveBLSPublicKeys(Aggregate(keys of origins %v), all but the first) is not the first key (err %v)", names, err))
 			}
 		}
+	}
+	return
+}
+
+// runAggregationScalars: AggregateBLSPrivateKeys (and with it the scalar summation shared with Joint-Feldman) on scalars that sit on
+// the word boundaries of a multi-limb accumulator (2^64k - 1, 2^64k, words of all ones, r - those), in every order of every list of
+// two and three and in seeded longer lists: the result is the sum modulo the group order, whatever the order of the inputs.
+func runAggregationScalars(raw json.RawMessage, seed int64) (res Result) {
+	res.Violations = []Violation{}
+	defer func() {
+		if r := recover(); r != nil {
+			res.Violations = append(res.Violations, Violation{"C09", "NoPanic", fmt.Sprintf("scalar aggregation: panic: %v", r)})
+		}
+	}()
+	w := NewWorld(seed)
+	add := func(pred, d string) {
+		if len(res.Violations) < 5 {
+			res.Violations = append(res.Violations, Violation{"C04", pred, fmt.Sprintf("%s [seed %d]", d, seed)})
+		}
+	}
+	one := big.NewInt(1)
+	var pool []*big.Int
+	put := func(x *big.Int) {
+		x = new(big.Int).Mod(x, ref.R)
+		if x.Sign() != 0 {
+			pool = append(pool, x)
+		}
+	}
+	for _, k := range []uint{32, 64, 128, 192, 254} {
+		p := new(big.Int).Lsh(one, k)
+		put(p)
+		put(new(big.Int).Sub(p, one))
+		put(new(big.Int).Add(p, one))
+		put(new(big.Int).Sub(ref.R, p))
+		put(new(big.Int).Sub(ref.R, new(big.Int).Sub(p, one)))
+	}
+	put(one)
+	put(big.NewInt(2))
+	put(new(big.Int).Sub(ref.R, one))
+	put(new(big.Int).Sub(ref.R, big.NewInt(2)))
+	// single words of all ones at every position, alternating words
+	for k := uint(0); k < 4; k++ {
+		put(new(big.Int).Lsh(new(big.Int).Sub(new(big.Int).Lsh(one, 64), one), 64*k))
+	}
+	alt, _ := new(big.Int).SetString("ffffffffffffffff0000000000000000ffffffffffffffff", 16)
+	put(alt)
+	put(new(big.Int).Lsh(alt, 64))
+	put(w.Scalar("x1"))
+	keys := make([]crypto.PrivateKey, len(pool))
+	for i, s := range pool {
+		keys[i] = w.SK(s)
+	}
+	check := func(idx []int) {
+		sum := new(big.Int)
+		ks := make([]crypto.PrivateKey, len(idx))
+		for k, i := range idx {
+			sum.Add(sum, pool[i])
+			ks[k] = keys[i]
+		}
+		sum.Mod(sum, ref.R)
+		agg, err := crypto.AggregateBLSPrivateKeys(ks)
+		res.Evals++
+		if err != nil {
+			add("PrivateKeySum", fmt.Sprintf("AggregateBLSPrivateKeys of the scalars at pool positions %v: %v", idx, err))
+			return
+		}
+		want := make([]byte, 32)
+		sum.FillBytes(want)
+		if !bytes.Equal(agg.Encode(), want) {
+			var in []string
+			for _, i := range idx {
+				in = append(in, pool[i].Text(16))
+			}
+			add("PrivateKeySum", fmt.Sprintf("AggregateBLSPrivateKeys(%v) = %x, the sum modulo the group order is %x", in, agg.Encode(), want))
+		}
+	}
+	n := len(pool)
+	for i := 0; i < n; i++ {
+		for j := 0; j < n; j++ {
+			check([]int{i, j})
+		}
+	}
+	// triples: all ordered triples over a seeded third of the pool, plus seeded longer lists
+	var sub []int
+	for i := 0; i < n; i++ {
+		if (i+int(seed))%3 == 0 {
+			sub = append(sub, i)
+		}
+	}
+	for _, i := range sub {
+		for _, j := range sub {
+			for _, k := range sub {
+				check([]int{i, j, k})
+			}
+		}
+	}
+	for rep := 0; rep < 300; rep++ {
+		l := 4 + w.Rng.Intn(13)
+		idx := make([]int, l)
+		for k := range idx {
+			idx[k] = w.Rng.Intn(n)
+		}
+		check(idx)
 	}
 	return
 }
